@@ -39,7 +39,9 @@ def run(ctx):
     rng = ctx.rng
     specs = [{"spec": lpgen.gen_spec(rng), "solve": False} for _ in range(nsyn)]
     specs += [{"spec": lpgen.gen_spec(rng, solvable=True, nmax=16), "solve": True} for _ in range(nsolve)]
-    must = [pools.option(scenario="all_resilient_foods", shutoff="continued"), dict(pools.BASELINE_OPTION)]
+    specs += [{"spec": lpgen.gen_targeted(rng, k), "solve": True} for k in range(16 if ctx.quick else 240)]
+    must = [pools.option(scenario="industrial_foods", shutoff="continued"),
+            pools.option(ratio_stocks_untouched="no_stored_between_years", shutoff="continued"), dict(pools.BASELINE_OPTION)]
     real = pools.sample_runs(rng, nreal, must=must, horizons=(120,) if ctx.quick else (48, 96, 120))
     res = ctx.run_impl("lp_impl", {"synthetic": specs, "real": real, "rows_for_real": ctx.quick is False or True, "procs": 14})
     dist = {"solved_synthetic": 0, "infeasible_synthetic": 0, "real_solves": 0, "to_humans": 0, "to_animals": 0,
@@ -61,6 +63,15 @@ def run(ctx):
         gap = abs(rep - opt) / (1.0 + abs(opt))
         dist["max_rel_gap"] = max(dist["max_rel_gap"], gap)
         ctx.count((json.dumps(d, sort_keys=True)[:4000], rec["ty"]), nontrivial=opt > 0)
+        if REL < gap <= 2e-3 and "rows" in rec:
+            # ill-conditioned instances (seaweed ledgers growing several hundred percent a month): is it CBC's precision or
+            # the formulation?  Re-solve the code's OWN rows with HiGHS: if that agrees with the specification the LP is
+            # right and the gap is solver tolerance (recorded, not a violation)
+            st2, opt2 = lpspec.solve_rows(rec["rows"])
+            if st2 == 0 and abs(opt2 - opt) / (1.0 + abs(opt)) <= REL:
+                dist.setdefault("solver_tolerance_cases", []).append({"where": where, "reported": rep, "independent": opt,
+                                                                      "own_rows_highs": opt2, "rel_gap": gap})
+                return
         if gap > REL:
             kind = "overstated" if rep > opt else "suboptimal"
             ctx.violation(f"C02:reported-optimum-{kind}",
